@@ -18,24 +18,24 @@ open StarsimModel.TimePar
 /-- `np.clip(x, 0, 1)` -/
 def clip01 (x : Rat) : Rat := if x < 0 then 0 else if 1 < x then 1 else x
 
-/-- Interpretation of an extracted time-scaling expression for a module with timeline `(unit, dt)`.
-    (`dt_year` is `Time.init`'s `time_ratio(unit, dt, 'year', 1.0)`.) -/
-def factorOf (expr : String) (unit : UnitT) (dt : Option Rat) : Except Err Rat :=
+/-- Interpretation of an extracted time-scaling expression for a module with timeline `(unit, dt)` inside a sim with
+    timeline `(simUnit, simDt)`.  `X.t.dt_year` is `Time.init`'s `time_ratio(unit, dt, 'year', 1.0)` of THAT timeline. -/
+def factorOf (expr : String) (unit : UnitT) (dt : Option Rat) (simUnit : UnitT) (simDt : Option Rat) : Except Err Rat :=
   if expr = "1.0" ∨ expr = "1" then .ok 1
   else if expr = "self.t.dt" then (match dt with | some d => .ok d | none => .error .type)
-  else if expr = Gen.yearRatioExpr ∨ expr = "sim.t.dt_year" ∨ expr = "self.t.dt_year" then
-    timeRatio unit dt (some "year") (some 1)
+  else if expr = Gen.yearRatioExpr ∨ expr = "self.t.dt_year" then timeRatio unit dt (some "year") (some 1)
+  else if expr = "sim.t.dt_year" then timeRatio simUnit simDt (some "year") (some 1)
   else .error .type
 
 /-- plain-number rate: `clip(rate * rate_units * rel * factor)` -/
-def numberProb (expr : String) (unit : UnitT) (dt : Option Rat) (rate ru rel : Rat) : Except Err Rat :=
-  match factorOf expr unit dt with
+def numberProb (expr : String) (unit : UnitT) (dt : Option Rat) (simUnit : UnitT) (simDt : Option Rat) (rate ru rel : Rat) : Except Err Rat :=
+  match factorOf expr unit dt simUnit simDt with
   | .error e => .error e
   | .ok f => .ok (clip01 (rate * ru * rel * f))
 
 /-- TimePar rate: `((rate * rate_units) * rel) * factor` through `TimePar.__mul__`, then `np.clip` of `.values` -/
-def timeparProb (expr : String) (unit : UnitT) (dt : Option Rat) (t : TP Rat) (ru rel : Rat) : Except Err (Val Rat) :=
-  match factorOf expr unit dt with
+def timeparProb (expr : String) (unit : UnitT) (dt : Option Rat) (simUnit : UnitT) (simDt : Option Rat) (t : TP Rat) (ru rel : Rat) : Except Err (Val Rat) :=
+  match factorOf expr unit dt simUnit simDt with
   | .error e => .error e
   | .ok f =>
     match mulC ratOps t ru with
@@ -58,8 +58,8 @@ def deathsTimePar := timeparProb Gen.deathsTimeParFactor
 
 /-- `Pregnancy.make_fertility_prob_fn`, number form, one agent:
     `rate * (rate_units * rel) * time_factor`, zero when not fecund or outside `[min_age, max_age]`, clipped -/
-def fertilityNumber (unit : UnitT) (dt : Option Rat) (rate ru rel age minAge maxAge : Rat) (fecund : Bool) : Except Err Rat :=
-  match factorOf Gen.fertilityNumberFactor unit dt with
+def fertilityNumber (unit : UnitT) (dt : Option Rat) (simUnit : UnitT) (simDt : Option Rat) (rate ru rel age minAge maxAge : Rat) (fecund : Bool) : Except Err Rat :=
+  match factorOf Gen.fertilityNumberFactor unit dt simUnit simDt with
   | .error e => .error e
   | .ok f => .ok (if ¬ fecund ∨ age < minAge ∨ maxAge < age then 0 else clip01 (rate * (ru * rel) * f))
 
@@ -80,7 +80,7 @@ def nearest (years : List Rat) (y : Rat) : Nat :=
   | x :: xs => nearestAux y xs 1 0 (if x - y < 0 then y - x else x - y)
 
 /-- ageing: `People.update_post` adds this to every living agent's age once per SIM step -/
-def ageIncrement (simUnit : UnitT) (simDt : Option Rat) : Except Err Rat := factorOf Gen.ageingIncrement simUnit simDt
+def ageIncrement (simUnit : UnitT) (simDt : Option Rat) : Except Err Rat := factorOf Gen.ageingIncrement none none simUnit simDt
 
 /-- the exponent `dt` of `RoutineDelivery`'s `1 - (1 - prob) ** dt` for a sim with `(unit, dt)`;
     `sim.pars.dt` / `sim.t.dt` is the raw step count in sim units, `dt_year` the step length in years -/
@@ -88,5 +88,51 @@ def deliveryExponent (expr : String) (simUnit : UnitT) (simDt : Option Rat) : Ex
   if expr = "sim.pars.dt" ∨ expr = "sim.t.dt" then (match simDt with | some d => .ok d | none => .error .type)
   else if expr = "sim.t.dt_year" ∨ expr = "self.t.dt_year" then timeRatio simUnit simDt (some "year") (some 1)
   else .error .type
+
+/-! ### Table forms: nearest year (value version, for the theorem), fertility table -/
+
+def absDiff (a b : Rat) : Rat := if a - b < 0 then b - a else a - b
+
+/-- the year `sc.findnearest` selects: the FIRST entry at minimal distance -/
+def nearestValAux (y : Rat) : List Rat → Rat → Rat
+  | [], b => b
+  | x :: xs, b => if absDiff x y < absDiff b y then nearestValAux y xs x else nearestValAux y xs b
+
+def nearestVal (years : List Rat) (y : Rat) : Option Rat :=
+  match years with
+  | [] => none
+  | x :: xs => some (nearestValAux y xs x)
+
+/-- `Pregnancy.make_fertility_prob_fn`, table form: the row is the tabulated (yearly interpolated) year nearest to
+    `now - dur_pregnancy` (in years) -/
+def fertilityYear (index : List Rat) (now durPregYears : Rat) : Nat := nearest index (now - durPregYears)
+
+/-- the re-scaling of a bin's rate from "all women" to "fecund women": `rate*count/(count - infecund)` where defined -/
+def rescaleRate (rate : Rat) (count infecund : Nat) : Rat :=
+  if (0 : Rat) < (count : Rat) - (infecund : Rat) then rate * (count : Rat) / ((count : Rat) - (infecund : Rat)) else rate
+
+/-- `reindex(...).interpolate()`: linear interpolation between two tabulated years -/
+def lerp (y0 r0 y1 r1 y : Rat) : Rat := r0 + (r1 - r0) * (y - y0) / (y1 - y0)
+
+/-! ### Dynamic edges, per-act transmission -/
+
+/-- `DynamicNetwork.end_pairs`: `dur = dur - self.t.dt` once per network step; the edge is kept while `dur > 0` -/
+def edgeDurAfter (d dt : Rat) (n : Nat) : Rat := d - (n : Rat) * dt
+def edgeActive (d dt : Rat) (n : Nat) : Bool := decide (0 < edgeDurAfter d dt n)
+
+/-- the exponent of `SexualNetwork.net_beta`: `acts * self.t.dt` -/
+def netBetaExponent (acts dt : Rat) : Rat := acts * dt
+
+/-! ### Which timeline a module's time parameters are linked to (`Module.init_time`) -/
+
+/-- a timeline `(unit, dt)` -/
+abbrev Timeline := UnitT × Option Rat
+
+/-- `Module.init_time` runs module by module, in initialisation order, and initialises every NOT YET initialised TimePar it
+    finds.  `reach = true` models today's `sc.search(self.pars)`, which walks through `dist.module.sim` into every module of
+    the sim (so the first module reaches everything); `reach = false` is the intended search restricted to the module's own
+    parameters.  Result: the timeline the parameters of module `j` end up linked to. -/
+def linkedTimeline (reach : Bool) (mods : List Timeline) (j : Nat) : Option Timeline :=
+  if reach then (match mods[j]? with | some _ => mods.head? | none => none) else mods[j]?
 
 end StarsimModel.Hazard
